@@ -33,7 +33,9 @@ fn main() {
             let kind = a.rest[0].clone();
             let shard: u64 = a.rest.get(1).map(|s| s.parse().unwrap()).unwrap_or(0);
             let nshards: u64 = a.rest.get(2).map(|s| s.parse().unwrap()).unwrap_or(1);
-            let info = chunk::generate(&kind, &a.tier, a.seed, shard, nshards, &a.out);
+            // vharness chunk gen <shard> <nshards> <paths.ndjson> --out FILE : behaviours printed by TLC from Gen_Chunk.tla
+            let info = if kind == "gen" { chunk::generate_from_paths(&a.rest[3], a.seed, shard, nshards, &a.out) }
+                       else { chunk::generate(&kind, &a.tier, a.seed, shard, nshards, &a.out) };
             println!("{}", info);
         }
         "amf" => {
